@@ -121,6 +121,13 @@ class FaultStream(Stream):
                 yield dict(sc, fault=['fits_raise', j, rng.choice(EXCS)])
             if rng.random() < 0.3:
                 yield dict(sc, fault=['iter_raise', rng.randint(0, npol), rng.choice(['Base1', 'GeneratorExit'])])
+            # an extra allow policy whose pattern has a segment that is no regular expression on its own (evaluating it
+            # is an error): it can never turn a deny into an allow
+            if sc['checker'] == 'CRegex' and k % 3 == 0:
+                seg = rng.choice(['x<a)|(.*>', '<a)|(.*>', '<a(>x<b)>'])
+                extra = {'uid': 'badrx', 'effect': 'allow', 'subjects': [['s', seg]], 'resources': [['s', seg]],
+                         'actions': [['s', seg]], 'context': [], 'description': None, 'tags': ['<', '>']}
+                yield dict(sc, policies=sc['policies'] + [extra], fault=None, bad_extra=True)
             # a context rule of the j-th policy raises, under a key the inquiry context does hold (every j; the
             # classes a handler around the context lookup could mistake for "key absent" first)
             ctx = specs.py(sc['inquiry']['context'])
@@ -169,6 +176,11 @@ class FaultStream(Stream):
         ans = obs.split(' ')[0]
         if ans not in ('T', 'F'):
             return 'answer is not a strict boolean: %s' % obs
+        if c.get('bad_extra') and ans == 'T':
+            without = run_case(dict(c, policies=c['policies'][:-1], bad_extra=False))[0]
+            if without.split(' ')[0] == 'F':
+                return ('an allow policy whose pattern cannot be evaluated (a segment that is no regular expression on '
+                        'its own) turned the answer from deny into allow')
         _, eq, _ = run_case(c)
         if eq is not None and ans == 'T':
             return 'allow answered although a fault was injected and reached (%r)' % (eq,)
@@ -206,7 +218,7 @@ ASSUME = ['non-Exception BaseExceptions propagate (stated: C02_total); exception
 
 def main(argv):
     return run_check('C02', [FaultStream()], argv, trusted_base=TRUSTED, assumptions=ASSUME,
-                     translated=('guard', 'checker', 'on_generated'))
+                     translated=('guard', 'checker', 'parser', 'policy', 'on_generated', 'pin_rules', 'pin_util'))
 
 
 if __name__ == '__main__':
